@@ -337,3 +337,51 @@ func rangeBound(hdr *ssa.BasicBlock, v ssa.Value, n int64) bool {
 	}
 	return false
 }
+
+// immutableGlobalHeader: the package-level variable g is assigned only by its package's initializer and its
+// address is never taken for anything but loading it: every load of g yields the same value (for a slice: the same
+// header, hence the same length).
+func (c *Ctx) immutableGlobalHeader(g *ssa.Global) bool {
+	if c.immGlob == nil {
+		c.immGlob = map[*ssa.Global]bool{}
+	}
+	if v, ok := c.immGlob[g]; ok {
+		return v
+	}
+	ok := inModule2(g)
+	if ok {
+		for _, fn := range c.LibFuncs() {
+			isInit := fn.Synthetic != "" && fn.Name() == "init" && fn.Parent() == nil
+			eachInstr(fn, func(in ssa.Instruction) {
+				for _, op := range in.Operands(nil) {
+					if op == nil || *op != ssa.Value(g) {
+						continue
+					}
+					switch x := in.(type) {
+					case *ssa.UnOp:
+					case *ssa.Store:
+						if x.Addr != ssa.Value(g) || !isInit {
+							ok = false
+						}
+					case *ssa.IndexAddr, *ssa.FieldAddr:
+						// arrays/structs: element addresses; fine for the header question only if g is not itself
+						// re-assigned, which the Store case covers
+						if !isInit {
+							if _, isArr := g.Type().(*types.Pointer).Elem().Underlying().(*types.Array); !isArr {
+								ok = false
+							}
+						}
+					default:
+						ok = false
+					}
+				}
+			})
+		}
+	}
+	c.immGlob[g] = ok
+	return ok
+}
+
+func inModule2(g *ssa.Global) bool {
+	return g.Pkg != nil && (g.Pkg.Pkg.Path() == modPath || len(g.Pkg.Pkg.Path()) > len(modPath) && g.Pkg.Pkg.Path()[:len(modPath)+1] == modPath+"/")
+}
